@@ -491,6 +491,11 @@ def tie_pycore(ctx, tie_files):
             helpers_search.search(ctx, funcs)
         except Exception as e:      # the search itself must never mask the tie's verdict
             ctx.notes.append("helper search could not run: %r" % (e,))
+        try:
+            from harness import prims
+            prims.check(ctx, 250)      # the meaning Py/Prim.v gives to Python operations, compared with this interpreter
+        except Exception as e:
+            ctx.notes.append("primitive semantics test could not run: %r" % (e,))
 
 
 def _tie_pycore(ctx, tie_files):
